@@ -104,6 +104,14 @@ def build_cases(rep, tier, rng):
         prob = trsolve.random_problem(rng, n, "convex")
         cases.append(dict(mode="convex_default", prob=prob, x0=[rng.uniform(-3, 3) for _ in range(n)], settings={},
                           precond="exact", script=None))
+    # through the load-step driver: the objective still carries the previous step's parameters; the flag must refer
+    # to the parameters the solve was asked for (warm start / preconditioner refresh on and off)
+    for i in range(24 if tier == "quick" else 300):
+        n = [2, 3, 5][i % 3]
+        prob = trsolve.random_problem(rng, n, ["convex", "wiggly", "indef"][i % 3])
+        old = dict(prob); old["b"] = [v + rng.uniform(-1, 1) for v in prob["b"]]
+        cases.append(dict(mode="driver", prob=prob, prob_old=old, x0=[rng.uniform(-2, 2) for _ in range(n)], settings={},
+                          precond="exact", script=None, warm=bool(i % 2), upd=bool((i // 2) % 2)))
     # the dyadic witness of finding F1 (convergence exit lands on a local maximum)
     cases.append(dict(mode="genuine", prob=trsolve.WITNESS_F1, x0=[0.0], settings={}, precond="exact", script=None,
                       witness="F1"))
@@ -115,6 +123,8 @@ def run_case(c, tid):
     s.setdefault("debug_info", False)
     st = settings_from(s)
     ref = trsolve.dense_minimizer(c["prob"]) if c["mode"] == "convex_default" else None
+    if c["mode"] == "driver":
+        return trsolve.run("nes", c["prob"], c["x0"], st, tid=tid, prob_old=c["prob_old"], warm=c["warm"], upd=c["upd"])
     return trsolve.run("tr", c["prob"], c["x0"], st, precond=c["precond"], script=c.get("script"),
                        precond_point=c.get("precond_point"), tid=tid, convex_ref=ref)
 
